@@ -20,7 +20,8 @@ theorem parse_total (lo : LexOut) : all lo ≠ .panic ∧ all lo ≠ .fuel :=
 /-- C10.parse_shape  What the parser yields is a finite list of ok elements followed by at most one
 error, after which nothing is produced (in the model this is the shape of `Outcome.done`; the
 correspondence run checks on the real `Parser` that `next()` keeps returning `None` after the error
-and after the end). -/
+and after the end). This is the batch view; the iterator itself — its state after an error included —
+is `next_shape` / `next_refines_all` below. -/
 theorem parse_shape (lo : LexOut) : ∃ els err, all lo = .done els err := by
   have h := parse_total lo
   cases hall : all lo with
